@@ -80,7 +80,8 @@ def build_pair(tape, opts, max_msgs=6, apis=("deferred", "delegate"),
     return w, a, b
 
 
-CONN_FAULTS = ("cut", "half_open", "server_restart", "refuse", "hang")
+CONN_FAULTS = ("cut", "half_open", "server_restart", "refuse", "hang",
+               "stall")
 MSG_FAULTS = ("mbox_dup", "mbox_reorder", "mbox_replay_stored")
 
 
